@@ -213,7 +213,7 @@ def call_name(ex, name, pos, kw, st, fr, e):
             arr = h.larrs(x.t, x.ty.elem)[0]
             if x.ty.elem.kind == 'int':
                 i = z3.Int('sm_i')
-                arr = z3.Lambda([i], z3.ToReal(arr[i]))
+                arr = sym.defarray(st, i, z3.ToReal(arr[i]), 'toreal')
             ex.uses_lsum = True
             return [(vreal(lsum(arr, h.llen(x.t))), st)]
         raise Unsupported(f'sum of {x.ty}')
@@ -322,7 +322,7 @@ def sorted_contract(ex, pos, kw, st, fr):
     perm = fresh('sorted_perm', z3.ArraySort(I, I))
     inv = fresh('sorted_inv', z3.ArraySort(I, I))
     a, b = z3.Ints('so_a so_b')
-    st.heap.set_larrs(res.t, l.ty.elem, [z3.Lambda([a], x[perm[a]]) for x in arr])
+    st.heap.set_larrs(res.t, l.ty.elem, [sym.defarray(st, a, x[perm[a]], 'sorted') for x in arr])
     st.assume(sym.forall_int(0, n, lambda x: z3.And(0 <= perm[x], perm[x] < n, inv[perm[x]] == x), pattern=lambda x: perm[x]),
               sym.forall_int(0, n, lambda x: z3.And(0 <= inv[x], inv[x] < n, perm[inv[x]] == x), pattern=lambda x: inv[x]))
     keyf = ex.specs.sort_key(ex, st, fr, kw.get('key'))
